@@ -15,7 +15,7 @@ from . import common
 def handlers():
     from . import props_q
     h = {'C01': props_q.c01, 'C02': props_q.c02}
-    for mod in ('props_q2', 'props_m'):
+    for mod in ('props_q2', 'props_m', 'props_r'):
         try:
             m = __import__('harness.' + mod, fromlist=['HANDLERS'])
             h.update(m.HANDLERS)
